@@ -269,6 +269,7 @@ package memefish
 // @   inherit parser
 // @   panics never
 // @   loop 0 invariant lx: p.Lexer != l && CloneOK(l) && l.File == p.Lexer.File
+// @   loop 0 invariant[C05] pfq: pf(query) && within(query, lowerBound(), p.Lexer.Token.Pos)
 // @   loop 0 invariant nn: notNil(query)
 // @   loop 0 invariant wfq: wf(query)
 // @   loop 0 invariant fr: freshRef(query)
@@ -465,18 +466,22 @@ package memefish
 // @ func memefish.(*Parser).parseTableExprSuffix
 // @   props C03 C09
 // @   requires ParserInv(p) && notNil(join) && wf(join)
+// @   requires[C05] argpos: argsWithin()
 // @   requires[C03] known: typeIs(join, "*ast.Unnest") || typeIs(join, "*ast.TableName") || typeIs(join, "*ast.PathTableExpr") || typeIs(join, "*ast.SubQueryTableExpr") || typeIs(join, "*ast.ParenTableExpr")
 // @   ensures ParserInv(p)
 // @   ensures (p.Lexer == old(p.Lexer) || fresh(p.Lexer)) && p.Lexer.File == old(p.Lexer.File)
 // @   ensures p.Lexer.Token.Pos >= old(p.Lexer.Token.Pos)
 // @   ensures[C09] errs: len(p.errors) >= old(len(p.errors))
 // @   ensures result == join && wf(result)
+// @   ensures[C05] pf: pf(result)
+// @   ensures[C05] range: within(result, lowerBound(), p.Lexer.Token.Pos)
 // @   panics when true
 // @   modifies p.Lexer, p.errors, cur(p.Lexer).pos, cur(p.Lexer).Token.*, cur(p.Lexer).lastTokenKind, cur(p.Lexer).dotIdent, p.Lexer.File.lines, node(join).Sample
 
 // @ func memefish.(*Parser).parseQueryExprSuffix
 // @   props C03 C09
 // @   requires ParserInv(p) && notNil(e) && wf(e)
+// @   requires[C05] argpos: argsWithin()
 // @   ensures ParserInv(p)
 // @   ensures (p.Lexer == old(p.Lexer) || fresh(p.Lexer)) && p.Lexer.File == old(p.Lexer.File)
 // @   ensures p.Lexer.Token.Pos >= old(p.Lexer.Token.Pos)
@@ -526,6 +531,7 @@ package memefish
 // @ func memefish.(*Parser).parseUnnestSuffix
 // @   inherit parsersuffix
 // @   requires notNil(expr)
+// @   requires[C05] order: unnest <= $pos(expr) && $end(expr) <= rparen && rparen < p.Lexer.Token.Pos
 // @ func memefish.(*Parser).parseNewConstructor
 // @   inherit parser
 // @   requires notNil(namedType)
